@@ -23,11 +23,11 @@ CHECKS = {
               "the declarative clauses of RVData for <=3 (thorough: 4) observations with duplicate times and every placement of "
               "one non-finite component; every enumerated input is built with the real constructor under rotating (t_ref mode, "
               "unit, 1-D error / covariance, float / Time input), then copied and sliced; those traces plus seeded random ones "
-              "(to 200 observations) are validated by the RVDataTrace monitor (membership: order among equal times is free)."),
+              "(to 200 observations) are validated by the RVDataTrace monitor (membership: order among equal times is free). Histories (spec/History.tla, HistoryMC, HistoryTrace): every history of calls on one data set (including plotting, merging with another survey and a second construction from the caller's own arrays) that TLC enumerates to 3 calls (reads, documented in-place changes, copies / slices / masks / pickles / file round trips) and ends in a read this property owns is replayed on a real object; at every read the answer is compared with a fresh twin on which only the content-changing calls were replayed - an answer may depend on the content only, never on the calls made before."),
         design_ref="DESIGN.md section 3 C15",
         note=("Trusted: TLC, astropy Time/units, the value-encodes-identity projection (rv=id, err=id/8, cov[i][j]=1000i+j). "
               "Inverse covariance is checked exactly on integer unimodular matrices only. Inputs with no finite observation are skipped."),
-        technique="TLA+ spec (RVData/RVDataAlg) model-checked with TLC; replay of TLC-enumerated inputs; trace validation by total monitor",
+        technique="TLA+ spec (RVData/RVDataAlg) model-checked with TLC; replay of TLC-enumerated inputs; trace validation by total monitor; TLA+ spec (History) model-checked with TLC, TLC-enumerated call histories replayed on real objects against a fresh twin, validated by the HistoryTrace monitor",
     ),
     "C08": dict(
         category="model_checking",
@@ -48,11 +48,11 @@ CHECKS = {
               "circle, coverage bounds) over every observing pattern on 12 slots x 4 periods x 3 reference epochs; every pattern on 8 "
               "slots is replayed into the real max_phase_gap / phase_coverage / periods_spanned (observations fed shuffled, reversed "
               "and sorted), results are projected to exact rationals and validated by the DiagnosticsTrace monitor, as are MAP_sample "
-              "calls on tables with ties and decoy maxima; seeded random patterns go to 300 slots."),
+              "calls on tables with ties and decoy maxima; seeded random patterns go to 300 slots. Histories (spec/History.tla, HistoryMC, HistoryTrace): every history of calls on one sample object (MAP, phase gap / coverage against two data sets, periods spanned, unimodality) that TLC enumerates to 3 calls (reads, documented in-place changes, copies / slices / masks / pickles / file round trips) and ends in a read this property owns is replayed on a real object; at every read the answer is compared with a fresh twin on which only the content-changing calls were replayed - an answer may depend on the content only, never on the calls made before."),
         design_ref="DESIGN.md section 3 C19",
         note=("Trusted: TLC, astropy; half-integer reference offsets keep every phase off bin edges, so only (P, n_bins) with an even "
               "integer bin width 2P/n are used for phase_coverage. Non-integer periods are not on the lattice."),
-        technique="TLA+ spec (Diagnostics) theorems model-checked with TLC; replay of TLC-enumerated patterns; trace validation by total monitor",
+        technique="TLA+ spec (Diagnostics) theorems model-checked with TLC; replay of TLC-enumerated patterns; trace validation by total monitor; TLA+ spec (History) model-checked with TLC, TLC-enumerated call histories replayed on real objects against a fresh twin, validated by the HistoryTrace monitor",
     ),
     "C02": dict(
         category="model_checking",
@@ -177,11 +177,11 @@ CHECKS = {
               "slice / mask / array indexing, copy, mean, std, median_period; results projected to the lattice are validated by the "
               "SampleTableTrace monitor; seeded random tables go to 300 rows. wrap_K is also applied to a table whose orbits have already "
               "been read (read, wrap in place, read again, replace a column, read again): the curve may not come from anything the "
-              "object remembered about the rows as they were."),
+              "object remembered about the rows as they were. Histories (spec/History.tla, HistoryMC, HistoryTrace): every history of calls on one sample table that TLC enumerates to 3 calls (reads, documented in-place changes, copies / slices / masks / pickles / file round trips) and ends in a read this property owns is replayed on a real object; at every read the answer is compared with a fresh twin on which only the content-changing calls were replayed - an answer may depend on the content only, never on the calls made before."),
         design_ref="DESIGN.md section 3 C17",
         note=("Trusted: TLC, astropy. pack->unpack identity is checked with the table's own units (and for tables already in internal "
               "units with default arguments): pack() by design converts to internal units otherwise. Lattice tolerance 1e-7."),
-        technique="TLA+ spec (SampleTable) theorems model-checked with TLC; replay of TLC-enumerated tables; trace validation by total monitor",
+        technique="TLA+ spec (SampleTable) theorems model-checked with TLC; replay of TLC-enumerated tables; trace validation by total monitor; TLA+ spec (History) model-checked with TLC, TLC-enumerated call histories replayed on real objects against a fresh twin, validated by the HistoryTrace monitor",
     ),
     "C18": dict(
         category="model_checking",
@@ -243,12 +243,12 @@ CHECKS = {
               "sum of that curve; samples.t_ref the data's; and marginal = unmarginalised + linear prior - conditional posterior. Off "
               "the lattice the identity is evaluated on seeded random real-valued problems with the row's unmarginalised likelihood "
               "from the real code (get_orbit) and prior / posterior densities from the TLC-certified floating-point transcription of "
-              "Gauss.tla (quick 80, thorough 1500; 1e-6 relative to the largest term)."),
+              "Gauss.tla (quick 80, thorough 1500; 1e-6 relative to the largest term). Histories (spec/History.tla, HistoryMC, HistoryTrace): every history of calls on one sample table (ln_unmarginalized_likelihood after orbit reads, wrap_K, column assignment, copies) that TLC enumerates to 3 calls (reads, documented in-place changes, copies / slices / masks / pickles / file round trips) and ends in a read this property owns is replayed on a real object; at every read the answer is compared with a fresh twin on which only the content-changing calls were replayed - an answer may depend on the content only, never on the calls made before."),
         design_ref="DESIGN.md section 3 C04",
         note=("Exhaustive on the lattice only; off the lattice explored on seeded random problems. twobody's KeplerOrbit is the independent orbit path. A failing identity would be attributed to a "
               "listed kernel finding only when the kernel's marginal or posterior state in the same trace was classified as that "
               "deviation (none is open)."),
-        technique="TLA+ spec (Gauss) exact rationals checked with TLC; replay of TLC-enumerated structural points; total monitor",
+        technique="TLA+ spec (Gauss) exact rationals checked with TLC; replay of TLC-enumerated structural points; total monitor; TLA+ spec (History) model-checked with TLC, TLC-enumerated call histories replayed on real objects against a fresh twin, validated by the HistoryTrace monitor",
     ),
     "C07": dict(
         category="model_checking",
@@ -296,12 +296,12 @@ CHECKS = {
               "-2 (ln p(mu + z sigma) - ln p(mu)) = z^2), the trend / offset scales that reach the model for sigma_v declared in "
               "km/s/d^i, m/s/d^i or km/s/yr^i, and for prior.sample(return_logprobs=True) ln_prior[i] - sum_p logp_p(row_i | "
               "row_i's parents) constant over rows (uniform and Lognormal jitter priors) with every draw inside its support. "
-              "The draw map is accepted in either direction (a (b/a)^u or b (b/a)^-u) and through uniform() or random()."),
+              "The draw map is accepted in either direction (a (b/a)^u or b (b/a)^-u) and through uniform() or random(). Histories (spec/History.tla, HistoryMC, HistoryTrace): every history of calls on one prior object (the four generate_linear / return_logprobs combinations of prior.sample in every order) that TLC enumerates to 3 calls (reads, documented in-place changes, copies / slices / masks / pickles / file round trips) and ends in a read this property owns is replayed on a real object; at every read the answer is compared with a fresh twin on which only the content-changing calls were replayed - an answer may depend on the content only, never on the calls made before."),
         design_ref="DESIGN.md section 3 C09, section 4",
         note=("NOT decided: that numpy / pytensor Beta, Normal, uniform and angle samplers produce the distribution whose parameters they "
               "are given (no statistical test is made - TLC cannot decide distributional claims); the absolute normalisation of pymc's "
               "Beta / Normal densities; the uniform-angle prior of pymc_ext (it has no log-density; treated as a constant)."),
-        technique="TLA+ spec (PriorModel) lattice theorems model-checked with TLC; replay of TLC-enumerated cases into the distribution classes; total monitor",
+        technique="TLA+ spec (PriorModel) lattice theorems model-checked with TLC; replay of TLC-enumerated cases into the distribution classes; total monitor; TLA+ spec (History) model-checked with TLC, TLC-enumerated call histories replayed on real objects against a fresh twin, validated by the HistoryTrace monitor",
     ),
 }
 
